@@ -37,7 +37,12 @@ Flows == <<
   \* 6 a variable that does not exist (renders "<no value>"), a template execution error, a preprocessor error
   [a |-> RDef(NoPre, Use("ghost", "", "hdr"), "json", FALSE),
    b |-> RDef(NoPre, Use("bad", "", "uri"), "none", FALSE),
-   c |-> RDef(PreM("missing", ""), NoUse, "none", FALSE)]
+   c |-> RDef(PreM("missing", ""), NoUse, "none", FALSE)],
+  \* 7 variables that are not there render "<no value>": nothing captured (leaf missing), no preprocessor (inner
+  \*   node missing), a step referring to its own postprocessor (not set yet while it renders)
+  [a |-> RDef(NoPre, Use("post", "a", "hdr"), "hdr", FALSE),
+   b |-> RDef(NoPre, Use("post", "c", "body"), "none", TRUE),
+   c |-> RDef(PreM("last", "items"), Use("pre", "a", "hdr"), "none", FALSE)]
 >>
 
 NameSeqs == << <<"a">>, <<"a", "b">>, <<"b", "a">>, <<"a", "a">>, <<"a", "b", "c">>, <<"a", "b", "a">>, <<"c", "b", "a">> >>
@@ -62,11 +67,11 @@ Script(kind, at) == [kind |-> kind, at |-> at]
 ScriptsFor(steps) == {Script("ok", 0)} \cup {Script(kd, k) : kd \in {"transport", "status"}, k \in 1..(steps + 1)}
 ScriptCode(sc) == IF sc.kind = "ok" THEN 0 ELSE (IF sc.kind = "transport" THEN 0 ELSE 20) + sc.at
 
-\* lvl 0 (quick): all shapes for one listed request, 6 / 3 representative shapes for lists of 2 / 3
+\* lvl 0 (quick): all shapes for one listed request, 4 / 2 representative shapes for lists of 2 / 3
 \* lvl 1 (thorough): all shapes for lists of 1 and 2, multiplicities and sleeps separately for lists of 3
 \* lvl 2: everything (5 628 structures)
-Shapes2 == {Shape(1, 0, 0), Shape(2, 0, 0), Shape(3, 3, 0), Shape(1, 0, 4), Shape(2, 3, 4), Shape(1, 3, 0)}
-Shapes3 == {Shape(1, 0, 0), Shape(2, 3, 0), Shape(3, 0, 4)}
+Shapes2 == {Shape(1, 0, 0), Shape(3, 3, 0), Shape(2, 0, 4), Shape(1, 3, 4)}
+Shapes3 == {Shape(1, 0, 0), Shape(2, 3, 4)}
 ShapeSeqs(len, lvl) ==
     IF len = 1 \/ lvl = 2 THEN [1..len -> AllShapes]
     ELSE IF lvl = 1 THEN (IF len = 2 THEN [1..len -> AllShapes] ELSE [1..len -> MultShapes] \cup [1..len -> SleepShapes])
@@ -100,7 +105,7 @@ RingLen(ws) == Len(RingOf(RingScens(ws)))
 WsCode(ws) == LET RECURSIVE C(_)
                   C(p) == IF p = 0 THEN 0 ELSE C(p - 1) * 6 + WCode(ws[p])
               IN C(Len(ws))
-RingCase(ws) == [id |-> 6000000 + WsCode(ws), fam |-> "ring", reqs |-> PlainReqs, scens |-> RingScens(ws),
+RingCase(ws) == [id |-> 9000000 + WsCode(ws), fam |-> "ring", reqs |-> PlainReqs, scens |-> RingScens(ws),
                  rows |-> 3, idx |-> 7, shots |-> 2 * RingLen(ws), script |-> Script("ok", 0)]
 RingInit == \E n \in 1..3 : \E ws \in [1..n -> Weights] : st = InitSt(RingCase(ws))
 
@@ -108,7 +113,7 @@ RingInit == \E n \in 1..3 : \E ws \in [1..n -> Weights] : st = InitSt(RingCase(w
 IterScens(w1, w2) == << [name |-> "s1", weight |-> w1, items |-> <<ReqItem("a", 1, 0), ReqItem("b", 2, 0)>>],
                         [name |-> "s2", weight |-> w2, items |-> <<ReqItem("a", 2, 0)>>] >>
 IterCase(w1, w2) ==
-    [id |-> 6100000 + (w1 * 10 + w2), fam |-> "iter",
+    [id |-> 9100000 + (w1 * 10 + w2), fam |-> "iter",
      reqs |-> [a |-> RDef(PreM("next", "users"), Use("pre", "a", "uri"), "none", FALSE),
                b |-> RDef(PreM("next", "users"), Use("pre", "b", "hdr"), "none", TRUE),
                c |-> RDef(NoPre, NoUse, "none", FALSE)],
@@ -118,13 +123,13 @@ IterInit == \E w1 \in {1, 2, 3}, w2 \in {1, 2} : st = InitSt(IterCase(w1, w2))
 
 \* several instances: [next] under every interleaving (design level, NInst = 2) and on the real engine (M1, 4 instances)
 NextCase(rows, shots) ==
-    [id |-> 6200000 + rows * 100 + shots, fam |-> "next",
+    [id |-> 9200000 + rows * 100 + shots, fam |-> "next",
      reqs |-> [a |-> RDef(PreM("next", "users"), Use("pre", "a", "uri"), "none", FALSE),
                b |-> RDef(PreM("next", "items"), Use("pre", "b", "hdr"), "none", FALSE),
                c |-> RDef(PreM("next", "users"), Use("pre", "c", "body"), "none", FALSE)],
      scens |-> << [name |-> "s1", weight |-> 1, items |-> <<ReqItem("a", 2, 0), ReqItem("b", 1, 0), ReqItem("c", 1, 0)>>] >>,
      rows |-> rows, idx |-> 7, shots |-> shots, script |-> Script("ok", 0)]
-SmallNextCase(shots) == [NextCase(2, shots) EXCEPT !.id = 6300000 + shots,
+SmallNextCase(shots) == [NextCase(2, shots) EXCEPT !.id = 9300000 + shots,
                             !.scens = << [name |-> "s1", weight |-> 1, items |-> <<ReqItem("a", 1, 0), ReqItem("c", 2, 0)>>] >>]
 NextInit == \E n \in 1..3 : st = InitSt(SmallNextCase(n))
 \* the order of log and samples does not influence the future: explore one representative per length
